@@ -515,6 +515,37 @@ macro_rules! quat_case {
                 bad = Some(("Lerp for Quaternion", "nlerp_direction", format!("nlerp({:?},{:?},{}) = {:?} is not the normalised componentwise lerp {:?} (ref form {:?})", a, b, t, n, raw, nr)));
             }
         }
+        // --- nlerp of endpoints that are NOT unit (drifted by rounding, or plainly unnormalised; the two
+        // may be the very same quaternion): the property promises a unit result whatever the endpoints' lengths
+        if bad.is_none() && cosab > -0.95 {
+            let (la, lb) = match rng.below(4) {
+                0 => (1.0 + rng.f64_in(-1.0, 1.0) * 1e-3, 1.0 + rng.f64_in(-1.0, 1.0) * 1e-3),
+                1 => { let l = rng.f64_in(0.2, 5.0); (l, l) }
+                _ => (rng.f64_in(0.2, 5.0), rng.f64_in(0.2, 5.0)),
+            };
+            let (la, lb) = if mode == 0 { (la, la) } else { (la, lb) };
+            let sa = Quaternion::from_xyzw(a.x * la as F, a.y * la as F, a.z * la as F, a.w * la as F);
+            let sb = if mode == 0 { sa } else { Quaternion::from_xyzw(b.x * lb as F, b.y * lb as F, b.z * lb as F, b.w * lb as F) };
+            let raw = Quaternion::lerp_unclamped_unnormalized(sa, sb, t);
+            let rm = mag(raw);
+            if rm > 0.05 {
+                for (form, n) in [
+                    ("lerp_unclamped", <Quaternion<F> as Lerp<F>>::lerp_unclamped(sa, sb, t)),
+                    ("lerp_unclamped_precise", <Quaternion<F> as Lerp<F>>::lerp_unclamped_precise(sa, sb, t)),
+                    ("lerp", <Quaternion<F> as Lerp<F>>::lerp(sa, sb, t)),
+                    ("&lerp_unclamped", <&Quaternion<F> as Lerp<F>>::lerp_unclamped(&sa, &sb, t)),
+                ] {
+                    if !((mag(n) - 1.0).abs() <= tol) {
+                        bad = Some(("Lerp for Quaternion", "nlerp_of_non_unit_endpoints_not_unit", format!("{}({:?}, {:?}, {}) = {:?} has magnitude {} (endpoint lengths {} and {})", form, sa, sb, t, n, mag(n), mag(sa), mag(sb))));
+                        break;
+                    }
+                    if !((dot(n, raw) / rm - 1.0).abs() <= 8.0 * tol) {
+                        bad = Some(("Lerp for Quaternion", "nlerp_direction", format!("{}({:?}, {:?}, {}) = {:?} is not parallel to the componentwise lerp {:?}", form, sa, sb, t, n, raw)));
+                        break;
+                    }
+                }
+            }
+        }
         // --- slerp
         $sub.saw("Quaternion::slerp_unclamped");
         let s = Quaternion::slerp_unclamped(a, b, t);
